@@ -56,10 +56,11 @@ let handle (line:string) : string =
   toks := split_ws line;
   match next () with
   | "RUN" ->
+    let fm = (match next () with "behavior" -> FBehavior | "compose" -> FCompose | s -> failwith ("form " ^ s)) in
     let maxs = next_nat () in
     let p = next_list read_beh in
     let main = next_nat () in
-    let ps = paths (run_main p maxs (nat_of_int 200) main) in
+    let ps = paths (run_program fm p maxs (nat_of_int 200) main) in
     String.concat " ; " (List.map (fun ((lg, pr), o) ->
       String.concat " " (List.map string_of_label lg) ^ " | " ^ string_of_q pr ^ " | " ^
       (match o with None -> "REJ" | Some s -> string_of_state s)) ps)
